@@ -106,7 +106,7 @@ fn gen_case(rng: &mut Rng) -> Case {
     }
     let mut offset = None;
     if kind == "corner" && rng.chance(1, 2) {
-        let o = rng.pick(&["2", "5", "25%", "75%", "50%", "-3"]).to_string();
+        let o = rng.pick(&["2", "5", "25%", "75%", "50%", "-3", "-4", "-1.5", "0", "100%", "0%"]).to_string();
         conn.push("corner-offset", &o);
         offset = Some(o);
     }
@@ -245,6 +245,39 @@ fn oracle(case: &Case, outs: &[OutEl]) -> Option<String> {
                 _ => None,
             }
         };
+        // Z shapes (four points, first and last segment parallel): the bend sits where corner-offset says,
+        // measured along the travel from the start when positive, back from the end when negative, half way
+        // by default - so the last segment enters its edge from outside whichever way the connector runs
+        if pts.len() == 4 {
+            let horiz = near(pts[0].1, pts[1].1) && near(pts[2].1, pts[3].1) && near(pts[1].0, pts[2].0);
+            let vert = near(pts[0].0, pts[1].0) && near(pts[2].0, pts[3].0) && near(pts[1].1, pts[2].1);
+            // which edge an end sits on, from the geometry: the mid-point of exactly one edge of its box
+            let edge_of = |e: &End, p: (f64, f64)| -> Option<char> {
+                if let End::El(i, _) = e {
+                    let bx = case.boxes[*i];
+                    let (cx, cy) = ((bx[0] + bx[2]) / 2.0, (bx[1] + bx[3]) / 2.0);
+                    let c: Vec<char> = [('l', near(p.0, bx[0]) && near(p.1, cy)), ('r', near(p.0, bx[2]) && near(p.1, cy)), ('t', near(p.1, bx[1]) && near(p.0, cx)), ('b', near(p.1, bx[3]) && near(p.0, cx))]
+                        .iter().filter(|(_, on)| *on).map(|(c, _)| *c).collect();
+                    if c.len() == 1 { Some(c[0]) } else { None }
+                } else { None }
+            };
+            let facing = matches!((edge_of(&case.start, first), edge_of(&case.end, last)), (Some('r'), Some('l')) | (Some('l'), Some('r')) | (Some('t'), Some('b')) | (Some('b'), Some('t')));
+            if horiz != vert && facing {
+                let (a0, a1, m) = if horiz { (first.0, last.0, pts[1].0) } else { (first.1, last.1, pts[1].1) };
+                let travel = a1 - a0;
+                let sign = if travel < 0.0 { -1.0 } else { 1.0 };
+                let want = match case.offset.as_deref() {
+                    None => Some(a0 + travel / 2.0),
+                    Some(o) if o.ends_with('%') => o.trim_end_matches('%').parse::<f64>().ok().map(|r| a0 + travel * r / 100.0),
+                    Some(o) => o.parse::<f64>().ok().and_then(|v| if v.abs() > travel.abs() { None } else if v < 0.0 { Some(a1 + sign * v) } else { Some(a0 + sign * v) }),
+                };
+                if let Some(w) = want {
+                    if !near(m, w) && !near(travel, 0.0) {
+                        return Some(format!("the bend of the Z-shaped connector is at {m} but corner-offset {:?} along the travel {a0} -> {a1} puts it at {w}: {}", case.offset, k.el.xml()));
+                    }
+                }
+            }
+        }
         if let Some(d) = dir_of(&case.start, first) {
             let seg_vertical = near(pts[0].0, pts[1].0) && !near(pts[0].1, pts[1].1);
             let seg_horizontal = near(pts[0].1, pts[1].1) && !near(pts[0].0, pts[1].0);
